@@ -52,8 +52,22 @@ fn via_serde<T>(s: &str) -> Result<Parsed, String>
 where
     T: DeserializeOwned + Display + Serialize,
 {
+    // every route by which a deserialiser can hand the string over: borrowed from the input text,
+    // transient (the JSON spelling contains an escape), owned (from a Value), streamed (from a reader)
     let lit = serde_json::to_string(s).map_err(|e| e.to_string())?;
-    let v: T = serde_json::from_str(&lit).map_err(|e| e.to_string())?;
+    let borrowed: Result<T, String> = serde_json::from_str(&lit).map_err(|e| e.to_string());
+    let escaped_lit = match s.chars().next() {
+        Some(c) if c.is_ascii() && !c.is_ascii_control() => format!("\"\\u{:04x}{}", c as u32, &lit[1 + c.len_utf8()..]),
+        _ => lit.clone(),
+    };
+    let transient: Result<T, String> = serde_json::from_str(&escaped_lit).map_err(|e| e.to_string());
+    let owned: Result<T, String> = serde_json::from_value(serde_json::Value::String(s.to_string())).map_err(|e| e.to_string());
+    let streamed: Result<T, String> = serde_json::from_reader(lit.as_bytes()).map_err(|e| e.to_string());
+    let texts: Vec<Option<String>> = [&borrowed, &transient, &owned, &streamed].iter().map(|r| r.as_ref().ok().map(|v| v.to_string())).collect();
+    if texts.iter().any(|t| *t != texts[0]) {
+        return Err(format!("SERDE-ROUTES-DISAGREE borrowed/transient/owned/streamed = {:?}", texts.iter().map(|t| t.is_some()).collect::<Vec<_>>()));
+    }
+    let v = borrowed?;
     Ok(Parsed { text: v.to_string(), json: serde_json::to_string(&v).ok() })
 }
 
